@@ -33,6 +33,9 @@ func Run(r *ev.Run, pkg, subject, kind string) {
 	case strings.Contains(o, "fatal error: concurrent map"):
 		res = "concurrent map access"
 		r.Violation("race-detector-report", subject+" crash the process:\n"+cut("fatal error: concurrent map", 1500), nil)
+	case strings.Contains(o, "REALSOCK:"):
+		res = "real-socket behaviour differs"
+		r.Violation("real-socket-behaviour", "over real loopback sockets ("+subject+"):\n"+cut("REALSOCK:", 800), nil)
 	case strings.Contains(o, "IMPURE:"):
 		res = "result differs under concurrency"
 		r.Violation("concurrent-result-differs", "a call made while others run gives another result than the same call made alone ("+subject+"):\n"+cut("IMPURE:", 800), nil)
